@@ -18,7 +18,8 @@ def enumerate_and_run(sc, binary, thorough):
     stats = []
     runs = []
     from checks import mergecheck
-    for nsvc, rich in ([(2, "TRUE"), (3, "FALSE")]):
+    def one(arg):
+        nsvc, rich = arg
         res = vlib.run_tlc(sc, "MergeGen", "gen%d.cfg" % nsvc, workers=1, serial=True, heap="6g", cfg_text=CFG % (nsvc, rich),
                            name="mergegen%d" % nsvc, timeout=1800)
         cases = res.printed
@@ -55,6 +56,11 @@ def enumerate_and_run(sc, binary, thorough):
         if r.returncode != 0:
             raise vlib.MachineryError("merge run on TLC-enumerated sets failed: %s" % r.stderr[-2000:])
         rs = mergecheck.load(out)
-        runs += rs
-        stats.append(dict(services=nsvc, rich=rich, enumerated=len(res.printed), run=len(cases), tlc_states=res.distinct, exhaustive=len(cases) == len(res.printed)))
+        return rs, (dict(services=nsvc, rich=rich, enumerated=len(res.printed), run=len(cases), tlc_states=res.distinct, exhaustive=len(cases) == len(res.printed)))
+    # the two enumerations are single-threaded TLC runs: side by side
+    from concurrent.futures import ThreadPoolExecutor
+    with ThreadPoolExecutor(max_workers=2) as ex:
+        for rs, st in ex.map(one, [(2, "TRUE"), (3, "FALSE")]):
+            runs += rs
+            stats.append(st)
     return stats, runs
